@@ -24,8 +24,8 @@ from vsim.tape import Tape, mix
 from vsim.world import World, diff_snapshots
 
 ID = "C08"
-RUNS = {"quick": 160, "thorough": 4000}
-WALL = {"quick": 1500, "thorough": 6 * 3600}
+RUNS = {"quick": 160, "thorough": 2400}
+WALL = {"quick": 3600, "thorough": 8 * 3600}
 OP_TIMEOUT = 300
 MIN_BUDGET = 36
 MIN_PER_SIG = 18
